@@ -12,7 +12,7 @@ import b3
 import vlib
 
 PROP = "C14"
-FAMILIES = ["expr", "scope", "func", "loops", "records", "index", "hof", "multifor", "unset"]
+FAMILIES = ["expr", "scope", "func", "loops", "records", "index", "hof", "multifor", "unset", "emitsnap"]
 
 
 def parse_out(stdout):
@@ -50,13 +50,17 @@ def run(tier, seed):
             cs = rnd.sample(cs, 6000)
         for c in cs:
             all_cases.append((fam, c))
-    runs = []
-    for fam, c in all_cases:
-        argv = [mlr] + (["-n"] if c["n"] else []) + ["put"] + (["-q"] if c["q"] else []) + [c["src"]]
-        stdin = "".join(",".join("%s=%s" % (k, v) for k, v in rec) + "\n" for rec in c["recs"])
-        runs.append({"argv": argv, "stdin": stdin, "timeout_ms": 10000})
-    res = vlib.run_cases(runs)
-    vlib.confirm_timeouts(runs, res)
+    def to_run(c, src, recs):
+        argv = [mlr] + (["-n"] if c["n"] else []) + ["put"] + (["-q"] if c["q"] else []) + [src]
+        stdin = "".join(",".join("%s=%s" % (k, v) for k, v in rec) + "\n" for rec in recs)
+        return {"argv": argv, "stdin": stdin, "timeout_ms": 10000}
+    runs = [to_run(c, c["src"], c["recs"]) for fam, c in all_cases]
+    # law cases (family emitsnap) come with a cut-down program / record list whose output must be a prefix of the whole's
+    law_idx = [i for i, (fam, c) in enumerate(all_cases) if c.get("src0")]
+    runs0 = [to_run(all_cases[i][1], all_cases[i][1]["src0"], all_cases[i][1]["recs0"]) for i in law_idx]
+    res_all = vlib.run_cases(runs + runs0)
+    vlib.confirm_timeouts(runs + runs0, res_all)
+    res, res0 = res_all[:len(runs)], dict(zip(law_idx, res_all[len(runs):]))
     obs, omap, parse_failures = [], [], []
     for i, ((fam, c), rr) in enumerate(zip(all_cases, res)):
         err = rr["stderr"]
@@ -73,7 +77,11 @@ def run(tier, seed):
             out = [["fatal"]]
         else:
             out = parse_out(rr["stdout"])
-        obs.append({"c": c["c"], "out": out})
+        o = {"c": c["c"], "out": out}
+        if i in res0:
+            r0 = res0[i]
+            o["out0"] = [["fatal"]] if (r0["exit"] != 0 or r0["timed_out"]) else parse_out(r0["stdout"])
+        obs.append(o)
         omap.append(i)
     if len(parse_failures) > max(5, len(all_cases) // 200):
         raise vlib.Inconclusive("Unparse produces text the parser rejects (%d programs), e.g. %r" % (len(parse_failures), parse_failures[:2]))
